@@ -1040,6 +1040,23 @@ func runDocCase(c dCase) dEvent {
 		if !ev.Det.FrameOK && os.Getenv("VERIF_DEBUG") != "" {
 			fmt.Fprintf(os.Stderr, "BEFORE %s\nAFTER  %s\n", before, snapshot(live, url)+snapshotDoc(doc))
 		}
+		// a URL value that answered another request before (it was written out for /t2/zz-other) and then holds
+		// this request's content, every exported field of it: the bytes depend on what the URL holds now
+		if !c.Var.Busy {
+			if used, uerr := jsonapi.NewURLFromRaw(w.schema, "/t2/zz-other?fields%5Bt2%5D=b"); uerr == nil {
+				_ = used.String()
+				_, _ = catch(func() { _, _ = jsonapi.MarshalDocument(&jsonapi.Document{}, used) })
+				dv, sv := reflect.ValueOf(used).Elem(), reflect.ValueOf(url).Elem()
+				for k := 0; k < dv.NumField(); k++ {
+					if dv.Type().Field(k).IsExported() {
+						dv.Field(k).Set(sv.Field(k))
+					}
+				}
+				if again, err := jsonapi.MarshalDocument(doc, used); err != nil || !bytes.Equal(again, kept) {
+					ev.Det.AllSame = false
+				}
+			}
+		}
 		// fresh builds of the same content, and of permuted content
 		rng := rand.New(rand.NewSource(c.Seed + 17))
 		for i := 0; i < 3; i++ {
